@@ -728,11 +728,23 @@ fn run(sh: &Shared, families: &Families) {
                     } else {
                         let jj = j - seeds.len();
                         let mut rng = ctx.rng(mix64(fnv64(target.name.as_bytes()), jj as u64));
-                        let c = if jj < plans[tid].systematic {
-                            plans[tid].systematic_case(seeds, jj)
+                        // systematic sweep and random/structured generation are interleaved (even / odd),
+                        // so that a time-boxed run gets both instead of only the front of the sweep
+                        let sys_n = plans[tid].systematic;
+                        let rand_n = totals[tid].saturating_sub(seeds.len() + sys_n);
+                        let r = sys_n.min(rand_n);
+                        let sys_index = if jj < 2 * r {
+                            if jj % 2 == 0 { Some(jj / 2) } else { None }
+                        } else if sys_n > r {
+                            Some(jj - r)
+                        } else {
+                            None
+                        };
+                        let c = if let Some(si) = sys_index {
+                            plans[tid].systematic_case(seeds, si)
                         } else if target.family == "zbsdiff" && rng.chance(1, 3) {
                             let old = &seeds[rng.usize_below(seeds.len())].aux;
-                            Some(mutate::zbsdiff_structured(&mut rng, old))
+                            if rng.chance(1, 3) { Some(mutate::zbsdiff_one_hostile_field(&mut rng, old)) } else { Some(mutate::zbsdiff_structured(&mut rng, old)) }
                         } else {
                             Some(mutate::random_case(&mut rng, seeds, pool, target.text))
                         };
